@@ -346,6 +346,24 @@ pub fn gen_median(rng: &mut Rng, tier: &Tier, acc_every: bool) -> Vec<Case> {
         }
     }
     cases.extend(small_int_cases(rng, tier, &["median"]));
+    // values equal under `==` and different bit for bit (zeros of either sign at the sample type `fz`): what the filter
+    // and its accessors hand out is a member of the CURRENT window, not a value equal to one
+    for _ in 0..tier.n(60, 600) {
+        let n = *rng.pick(&[1usize, 2, 3, 3, 4, 5]);
+        let len = rng.range(n as i64, 3 * n as i64 + 4) as usize;
+        let run = rng.chance(1, 2);
+        let mut vals: Vec<String> = Vec::new();
+        for i in 0..len {
+            let v = if run {
+                // a block of +0 followed by a block of -0 (period = the width: each arrival equals the sample it evicts)
+                if (i / n) % 2 == 0 { "0" } else { "-0" }
+            } else {
+                *rng.pick(&["0", "-0", "0", "-0", "1", "-1"])
+            };
+            vals.push(v.to_string());
+        }
+        cases.push(median_case(n, " T=fz", &vals, acc_every));
+    }
     {
         let n = *rng.pick(&[2usize, 3, 4, 5, 8]);
         cases.extend(long_cases(rng, &[format!("median N={}", n)]));
@@ -371,8 +389,10 @@ fn long_cases(rng: &mut Rng, news: &[String]) -> Vec<Case> {
     let mut cases = Vec::new();
     for new in news {
         let mut c = vec![format!("new 1 {}", new), "long 1 1024".to_string()];
-        for _ in 0..LONG_RUN {
-            c.push(format!("f 1 {}", rng.range(-9, 9)));
+        // (a debounce filter with a threshold beyond 65 536 gets one unbroken run of its predicate)
+        let constant = new.starts_with("debounce thr=70000");
+        for i in 0..(if constant { LONG_RUN + 5000 } else { LONG_RUN }) {
+            c.push(format!("f 1 {}", if constant { if i == 0 { 0 } else { 1 } } else { rng.range(-9, 9) }));
         }
         cases.push(c);
     }
@@ -454,8 +474,8 @@ pub fn gen_mean(rng: &mut Rng, tier: &Tier) -> Vec<Case> {
             for _ in 0..tier.n(3, 30) {
                 let taps: Vec<String> = (0..k).map(|_| rat(rng)).collect();
                 let mut c = vec![format!(
-                    "inject 1 mean N={} taps={} mean={} weight={}",
-                    n, csv(&taps), opt_rat(rng), rat_nonzero(rng)
+                    "inject 1 mean N={} taps={} mean={} weight={}{}",
+                    n, csv(&taps), opt_rat(rng), rat_nonzero(rng), if rng.chance(1, 3) { " via=statemut" } else { "" }
                 )];
                 for _ in 0..rng.range(1, n as i64 + 3) {
                     c.push(format!("f 1 {}", rat(rng)));
@@ -600,8 +620,8 @@ pub(crate) fn deque_inject_cases(rng: &mut Rng, tier: &Tier, kind: &str, cases: 
                 }
                 let hist: Vec<String> = pre.iter().map(|x| x.to_string()).collect();
                 let mut c = vec![format!(
-                    "inject 1 {} N={} time={} taps={} hist={}",
-                    kind, n, target, csv(&taps2), csv(&hist)
+                    "inject 1 {} N={} time={} taps={} hist={}{}",
+                    kind, n, target, csv(&taps2), csv(&hist), if rng.chance(1, 4) { " via=statemut" } else { "" }
                 )];
                 for x in int_seq(rng, 3 * n + 3) {
                     c.push(format!("f 1 {}", x));
@@ -773,7 +793,10 @@ fn single_kind_cases(rng: &mut Rng, kind: &'static str, count: usize, maxlen: i6
 fn injected_cases(rng: &mut Rng, count: usize, first: &dyn Fn(&mut Rng) -> String, two_inputs: bool, guts: &[&str]) -> Vec<Case> {
     let mut cases = Vec::new();
     for _ in 0..count {
-        let mut c = vec![first(rng)];
+        // a third of the hand-built states are written through `StateMut::state_mut` into a freshly constructed filter
+        // instead of being passed to `from_guts`
+        let via = if rng.chance(1, 3) { " via=statemut" } else { "" };
+        let mut c = vec![format!("{}{}", first(rng), via)];
         for g in guts {
             c.push(format!("guts 1 {}", g));
         }
@@ -1028,6 +1051,29 @@ pub fn gen_diffint(rng: &mut Rng, tier: &Tier) -> Vec<Case> {
         }
         cases.push(c);
     }
+    cases.extend(long_cases(rng, &["integrate".to_string(), "differentiate".to_string()]));
+    // at f32 on the bit-pattern protocol: infinities, NaN, jumps larger than the mantissa — each output is ONE operation
+    // of the type's own arithmetic on the inputs, so it is compared bit for bit
+    for _ in 0..tier.n(80, 800) {
+        let kind = if rng.chance(1, 2) { "differentiate_b" } else { "integrate_b" };
+        let mut c = vec![format!("new 1 {} T=f32", kind)];
+        for _ in 0..rng.range(2, 9) {
+            let x: f32 = match rng.below(9) {
+                0 => f32::INFINITY,
+                1 => f32::NEG_INFINITY,
+                2 => f32::NAN,
+                3 => (1u64 << 30) as f32,
+                4 => -0.0,
+                5 => 1e-30,
+                _ => rng.range(-12, 12) as f32,
+            };
+            c.push(format!("f 1 y{:08x}", if x.is_nan() { 0x7fc0_0000 } else { x.to_bits() }));
+            if rng.chance(1, 6) {
+                c.push((*rng.pick(&["reset 1", "clone 1 1", "gutsrt 1 1"])).to_string());
+            }
+        }
+        cases.push(c);
+    }
     cases
 }
 
@@ -1055,6 +1101,26 @@ pub fn gen_meanvar(rng: &mut Rng, tier: &Tier) -> Vec<Case> {
             }
             cases.push(c);
         }
+    }
+    cases.extend(long_cases(rng, &["meanvar N=3".to_string()]));
+    // the exponential mean-variance filter holds two exponential means of its own; hand-built (the state is public),
+    // they may carry a width that differs from the filter's configuration. Its mean output is then what THAT inner mean
+    // filter emits — compared with a real exponential mean of the same width and state fed the same samples
+    for _ in 0..tier.n(40, 400) {
+        let (w, mw, vw) = (unit_rat(rng), unit_rat(rng), unit_rat(rng));
+        let m = opt_rat(rng);
+        let via = |rng: &mut Rng| if rng.chance(1, 3) { " via=statemut" } else { "" };
+        let mut c = vec![
+            format!("inject 1 emeanvar w={} mw={} vw={} mean={} var={}{}", w, mw, vw, m, opt_rat(rng), via(rng)),
+            format!("inject 3 ema w={} mean={}{}", mw, m, via(rng)),
+        ];
+        for _ in 0..rng.range(2, 7) {
+            let x = rat(rng);
+            c.push(format!("f 1 {}", x));
+            c.push(format!("f 3 {}", x));
+            c.push("same 1 3 C16.mean-eq-mean-filter 0".into());
+        }
+        cases.push(c);
     }
     cases
 }
@@ -1090,6 +1156,7 @@ pub fn gen_classify8(rng: &mut Rng, tier: &Tier) -> Vec<Case> {
             cases.push(c);
         }
     }
+    cases.extend(long_cases(rng, &["threshold thr=1 out=-7,11".to_string(), "schmitt low=-2 high=3 out=-7,11".to_string(), "debounce thr=3 pred=1 out=-7,11".to_string(), "debounce thr=70000 pred=1 out=-7,11".to_string()]));
     cases
 }
 
@@ -1127,6 +1194,19 @@ pub fn gen_classify9(rng: &mut Rng, tier: &Tier) -> Vec<Case> {
         let mut c = vec![format!("new 1 slopes out=21,22,23{}", t), format!("new 2 peaks out=21,22,23{}", t)];
         for x in int_seq(rng, len) {
             let v = if nan && rng.chance(1, 5) { "nan".to_string() } else { x.to_string() };
+            c.push(format!("f 1 {}", v));
+            c.push(format!("f 2 {}", v));
+        }
+        cases.push(c);
+    }
+    cases.extend(long_cases(rng, &["slopes out=21,22,23".to_string(), "peaks out=21,22,23".to_string()]));
+    // composite-like samples (`3~`: what `(3.0, NaN)` is among lexicographically compared tuples — unequal even to itself,
+    // yet greater / smaller than other values): still rising / falling against a different predecessor, flat otherwise
+    for _ in 0..tier.n(80, 800) {
+        let mut c = vec!["new 1 slopes out=21,22,23 T=sn".to_string(), "new 2 peaks out=21,22,23 T=sn".to_string()];
+        let len = rng.range(2, 12) as usize;
+        for x in int_seq(rng, len) {
+            let v = if rng.chance(1, 3) { format!("{}~", x) } else { x.to_string() };
             c.push(format!("f 1 {}", v));
             c.push(format!("f 2 {}", v));
         }
